@@ -87,17 +87,27 @@ def q_strs(ss):
 # --------------------------------------------------------------------------- Coq build / run
 
 def _run(cmd, timeout, cwd=None, input=None):
+    """Runs a command in its own process group; on timeout the whole group is killed (a hung coqc
+    below make must not survive and keep the build lock busy)."""
+    import signal
+    p = subprocess.Popen(cmd, cwd=cwd, stdin=subprocess.PIPE if input is not None else subprocess.DEVNULL,
+                         stdout=subprocess.PIPE, stderr=subprocess.STDOUT, text=True, start_new_session=True)
     try:
-        p = subprocess.run(cmd, cwd=cwd, input=input, capture_output=True, text=True, timeout=timeout)
-        return p.returncode, p.stdout + p.stderr
-    except subprocess.TimeoutExpired as e:
-        out = (e.stdout or b"")
-        if isinstance(out, bytes):
-            out = out.decode("utf-8", "replace")
-        return 124, out + "\nTIMEOUT after %ss: %s" % (timeout, " ".join(cmd[:3]))
+        out, _ = p.communicate(input=input, timeout=timeout)
+        return p.returncode, out
+    except subprocess.TimeoutExpired:
+        try:
+            os.killpg(p.pid, signal.SIGKILL)
+        except OSError:
+            pass
+        try:
+            out, _ = p.communicate(timeout=10)
+        except Exception:
+            out = ""
+        return 124, (out or "") + "\nTIMEOUT after %ss: %s" % (timeout, " ".join(cmd[:3]))
 
 
-def coq_build(timeout=3000):
+def coq_build(timeout=1500):
     """Full .vo build of the development under flock (a no-op when nothing changed)."""
     lock = open(os.path.join(COQ, ".build.lock"), "w")
     fcntl.flock(lock, fcntl.LOCK_EX)
